@@ -73,7 +73,12 @@ PROPOSED_KNOWN = [
 
 CORPUS = os.path.join(vlib.ROOT, "corpus", PID)
 WORK = os.path.join(vlib.BUILD, "c19", "work")
-CLI_TARGET = os.path.join(vlib.BUILD, "cli-target")
+# One cargo target directory PER SOURCE ROOT. Cargo names the artifacts of a workspace member independently of the
+# absolute path of the workspace and records its sources relative to the package root, so a target directory shared
+# between /repo and a scratch worktree (VERIF_REPO) can hand back the other tree's binary as "fresh".
+# Scratch directories (build/cli-target-<hash>) are ~2 GB each: remove them together with the scratch worktree.
+CLI_TARGET = os.path.join(vlib.BUILD, "cli-target" if vlib.REPO == "/repo" else
+                          "cli-target-" + hashlib.sha256(os.path.realpath(vlib.REPO).encode()).hexdigest()[:8])
 WAC = os.path.join(CLI_TARGET, "debug", "wac")
 
 
@@ -169,26 +174,36 @@ GEN_TABLE = os.path.join(vlib.COQ, "theories", "gen", "CliTable.v")
 MY_TABLE = os.path.join(vlib.BUILD, "c19", "CliTable.expected.v")
 
 
+LASTGOOD_TABLE = os.path.join(vlib.ROOT, "tools", "gen", "CliTable.lastgood.v")
+TABLE_STATE = dict(error=None, model_tie=None)
+
+
 def my_table():
     """The table for vlib.REPO, written to a private file (the shared gen/ file may be regenerated at any time by a
-    concurrently running check of another property, possibly for another VERIF_REPO)."""
+    concurrently running check of another property, possibly for another VERIF_REPO).  If the translator cannot read
+    the sources the LAST GOOD table (committed snapshot tools/gen/CliTable.lastgood.v, else the gen/ file on disk) is
+    used, so that the correspondence and the property predicate still run; the failure is a broken tie."""
     os.makedirs(os.path.dirname(MY_TABLE), exist_ok=True)
     rc, out = vlib.sh("python3 " + os.path.join(vlib.ROOT, "tools", "gen", "gen_cli_table.py"),
                       env=dict(vlib.ENV, VERIF_CLI_TABLE_OUT=MY_TABLE), timeout=120)
-    if rc != 0:
-        raise RuntimeError("translator failed: " + out[-1500:])
-    return open(MY_TABLE).read()
+    if rc == 0:
+        TABLE_STATE["error"] = None
+        return open(MY_TABLE).read()
+    TABLE_STATE["error"] = out.strip()[-1500:]
+    for p in (LASTGOOD_TABLE, GEN_TABLE):
+        if os.path.exists(p):
+            return open(p).read()
+    raise RuntimeError("translator failed and there is no last good table: " + out[-1500:])
 
 
 PRIVATE_FILES = ["lib/Str.v", "lib/Show.v", "lib/Ord.v", "model/Semver.v", "model/CliTypes.v", "gen/CliTable.v",
                  "model/Cli.v", "model/CliWorlds.v", "spec/CliSpec.v"]
 
 
-def private_model():
-    """Compile a private copy of the model (with the table of OUR repository path) under build/c19/coq, so that the
+def private_model(want_table):
+    """Compile a private copy of the model (with the given table) under build/c19/coq, so that the
     evaluation cannot be disturbed by a concurrent regeneration of the shared gen/CliTable.v. Cached by content."""
     pd = os.path.join(vlib.BUILD, "c19", "coq")
-    want_table = my_table()
     texts = {}
     for rel in PRIVATE_FILES:
         texts[rel] = want_table if rel == "gen/CliTable.v" else open(os.path.join(vlib.COQ, "theories", rel)).read()
@@ -216,7 +231,15 @@ def coq_eval(exprs):
     for e in exprs:
         src.append(f"Eval vm_compute in ({e}).")
     open(os.path.join(d, "cases.v"), "w").write("\n".join(src) + "\n")
-    pd = private_model()
+    try:
+        pd = private_model(my_table())
+    except RuntimeError as e:
+        # the model does not compile against the table of the current sources: evaluate with the last good table
+        TABLE_STATE["model_tie"] = str(e)[-2500:]
+        if not os.path.exists(LASTGOOD_TABLE):
+            raise
+        TABLE_STATE["error"] = TABLE_STATE["error"] or "model/Cli.v does not compile against the table generated from the current sources"
+        pd = private_model(open(LASTGOOD_TABLE).read())
     rc, out = vlib.sh(f"timeout 900 coqc -Q {pd}/theories WacV -w -all {d}/cases.v", cwd=d, timeout=930)
     if rc != 0:
         raise RuntimeError("coqc on cases.v failed: " + out[-3000:])
@@ -501,7 +524,15 @@ def tokens_to_bytes(toks, table):
 def run(res, tier, seed, replay):
     # one run at a time: the work directory and the cli target directory are shared
     with vlib.Lock("c19-run"):
-        _run(res, tier, seed, replay)
+        try:
+            _run(res, tier, seed, replay)
+        except Exception as e:      # never let a machinery failure escape: report it and keep the evidence file valid
+            import traceback
+            res.violation(dict(kind="machinery-error", what=repr(e), trace=traceback.format_exc()[-3000:]), no_input=True)
+            if getattr(res, "proof_broken", None):
+                res.violation(res.proof_broken, no_input=True)
+            if not res.coverage.get("correspondence_cases"):
+                fill_min(res)
 
 
 def _run(res, tier, seed, replay):
@@ -529,15 +560,7 @@ def _run(res, tier, seed, replay):
                       no_input=True)
         fill_min(res)
         return
-    # the model and the specification are needed for the correspondence even when a proof is broken
-    ok, log = vlib.coq_make(["theories/model/CliWorlds.vo", "theories/spec/CliSpec.vo"])
-    if not ok:
-        res.violation(dict(kind="broken-tie", what="model/Cli.v does not compile against the generated gen/CliTable.v",
-                           log=log[-3000:]), no_input=True)
-        if res.proof_broken:
-            res.violation(res.proof_broken, no_input=True)
-        fill_min(res)
-        return
+    # (the model is evaluated from a private compiled copy, see private_model; a broken proof does not stop the run)
     lap("builds")
     only = None
     if replay:
@@ -636,6 +659,9 @@ def _run(res, tier, seed, replay):
     plug_after_obs(plug_runs, plug_scs, want)
     vals = coq_eval(exprs)
     lap("model_eval")
+    if TABLE_STATE["model_tie"]:
+        res.violation(dict(kind="broken-tie", what="model/Cli.v does not compile against the table generated from the current "
+                           "sources; the correspondence was evaluated with the last good table", log=TABLE_STATE["model_tie"]), no_input=True)
 
     # ---------------- judge
     for d, ix in dep_ix.items():
@@ -679,6 +705,9 @@ def _run(res, tier, seed, replay):
     # ---------------- evidence + outcome
     res.coverage.update(dict(
         correspondence_cases=bag.cases, evaluations=bag.cases, case_kinds=bag.kinds, phase_seconds=phases,
+        generated_table=("current sources" if not TABLE_STATE["error"] else
+                         "LAST GOOD table (tools/gen/CliTable.lastgood.v): the translator could not read the current sources: "
+                         + TABLE_STATE["error"][-400:]),
         compositions=len(scs), compositions_by_stopping_stage=stage_hist,
         compositions_failing_only_at_validation=sorted(set(invalid_unvalidated)),
         disagreements=len(bag.disagree), spec_failures_on_impl=len(bag.spec_fail),
@@ -1241,9 +1270,10 @@ def targets_matrix(only, want):
     for comp_name, comp_path in (("hello", comp("hello")), ("greeter", comp("greeter")), ("garbage", os.path.join(WORK, "garbage.wasm")),
                                  ("missing", os.path.join(WORK, "nope.wasm"))):
         for w, worlds in (("one-world.wit", [None, "w", "nope"]), ("world-mismatch.wit", [None]), ("two-worlds.wit", [None, "w1", "w2", "zz"]),
+                          ("two-worlds-rev.wit", [None, "w1", "w2"]), ("three-worlds.wit", [None, "w1", "w2", "w3", "api"]),
                           ("iface-and-world.wit", [None, "w", "api"]), ("iface-only.wit", [None, "api"]), ("bad-syntax.wit", [None]),
                           ("no-such.wit", [None]), ("types", [None])):
-            if comp_name != "hello" and w not in ("one-world.wit", "two-worlds.wit"):
+            if comp_name != "hello" and w not in ("one-world.wit", "two-worlds.wit", "two-worlds-rev.wit"):
                 continue
             for world in worlds:
                 T.append(dict(comp=comp_path, cname=comp_name, wit=wit(w), wname=w, world=world))
@@ -1316,6 +1346,16 @@ def judge_targets(runs, vals, bag, known):
                     bag.spec_fail.append(dict(base, what="exit status %d but the documented world selection %s" % (
                         o["rc"], "selects a world the component conforms to" if doc_ok else "selects no conforming world"),
                         exports=lib["worlds"], stderr=o["err"].decode("utf-8", "replace")[:300]))
+        if "worlds" in lib and t["world"] is None:
+            nworlds = len([w for w in lib["worlds"] if w["shape"] != "other"])
+            why = None
+            if nworlds >= 2 and (o["rc"] == 0 or "multiple worlds" not in norm_ws(o["err"])):
+                why = ("the WIT package defines %d worlds and no --world is given: the command must refuse with the "
+                       "'multiple worlds' diagnostic, but it exits %d with `%s`" % (nworlds, o["rc"], norm_ws(o["err"])[:100].strip()))
+            elif nworlds == 0 and o["rc"] == 0:
+                why = "the WIT package defines no world and no --world is given, but the command exits 0"
+            if why and not any(f.get("case_id") == rn["id"] for f in bag.spec_fail):
+                bag.spec_fail.append(dict(base, what=why, exports=lib["worlds"], stderr=o["err"].decode("utf-8", "replace")[:300]))
         if rn["id"] == "targets/hello/two-worlds.wit/w1":
             bag.samples.append(dict(argv=["wac"] + rn["argv"], exit=o["rc"], model=vals[rn["model_ix"]]))
 
